@@ -208,6 +208,12 @@ class SortedLookupMapColumn(NoValueColumn):
     """
     key = tuple(_extract(val) for val in key)
     self._relation_tracker.update_relation_from_current_node(key)
+    # A sort column may have been removed since this helper was created. Report it as when the
+    # helper is created, whether or not any record matches (sorting nothing would not notice).
+    table = self._engine.tables[self.table_id]
+    for c in self._sort_col_ids:
+      if not table.has_column(c):
+        raise table._missing_column_error(c)
     row_ids, rel = self._lookup_col._do_lookup_with_sort(key, self._sort_spec, self._sort_key)
     return row_ids, rel
 
